@@ -69,6 +69,11 @@ def gen(rng):
     names = rng.sample(NAMES, rng.randint(3, 8))
     made = TG.populate(rng, L, steps, n=rng.choice([2, 3, 5, 8, 12]), names=names)
     occ = TG.occupy(rng, steps, made, names) if rng.random() < 0.5 else {}
+    if made and rng.random() < 0.2:
+        # a .trashinfo nobody can take a Path from (left by an interrupted writer, damaged) next to the well-formed ones: in
+        # whatever position the directory lists it, it changes nothing for the entries that match
+        for j in range(rng.choice([1, 1, 2])):
+            TG.add_malformed(rng, steps, rng.choice(made)[0], rng.choice(['empty', 'nopath', 'binary', 'only_header', 'truncated']), 'n%d' % j)
     pat = gen_pattern(rng, names, L['home'])
     faults = []
     dirs_made = [m for m in made if any(st_[0] == 'd' and st_[1] == m[0] + '/files/' + m[1] for st_ in steps)]
